@@ -191,7 +191,7 @@ def run(ctx):
     ctx.rule = ("STFU-8 layer: all strings of <= %d symbols over the 20-symbol alphabet (encode, decode of the encoding, path decode); "
                 "reports: %d random reports (0-5 arguments of <= 30 symbols plus 0-2 option-like/assignment-like arguments such as -name=value or NAME=~/x, tiny reports whose argument is every string of <= 3 symbols over {a = : ~ # - SP $ ' /}, base dir and 1-4 paths per group with components over the alphabet "
                 "plus random bytes/scalars, '..' components, 0-4 groups, hashes of 1-64 bytes, sizes at the ByteSize unit thresholds up to 2^64-1) "
-                "written, read back, as JSON too; every truncation point of %d small reports; %d random edits of report texts. "
+                "written, read back, as JSON too; reports with groups of 1023/1024/1025/~3000 files; every report also read through a stream delivered in pieces (every split offset of the small reports, 1..64-byte reads, `# Total:` placed 0-9 bytes before the 16 KiB buffer boundary); every truncation point of %d small reports and selected ones of the 1025-file report; %d random edits of report texts. "
                 "A case is one command line of the txt protocol; non-trivial = the line carries an escape/quote (backslash in the text) or is a "
                 "truncation inside a group; distinct = distinct command line"
                 % (ctx.pick(3, 4), ctx.pick(300, 5000), ctx.pick(40, 200), ctx.pick(4000, 100000)))
@@ -225,6 +225,12 @@ def run(ctx):
         impl, mod = compare(lines, None, mlines)
         for l, i, m in zip(lines, impl, mod):
             core.log("replay: %s\n  impl : %s\n  model: %s" % (l[:300], i[:600], m[:600]))
+        for cl in rp.get("chunk_lines", []):
+            got = core.run_lines(TXT, [cl])[0]
+            core.log("replay: %s...\n  impl : %s" % (cl[:60], got[:600]))
+            if got != rp.get("expected"):
+                oracle.append((rp.get("signature", {}).get("kind", "chunked_read_roundtrip"),
+                               "read through `%s` gives %s" % (cl.split()[1], got[:300]), dict(rp)))
         if "report" in rp:
             r = rp["report"]
             r = {"version": bytes(r["version"]), "ts": bytes(r["ts"]), "base": bytes(r["base"]), "cmd": [bytes(a) for a in r["cmd"]],
@@ -306,7 +312,38 @@ def run(ctx):
             if not o.startswith("EXN") and (b"# Timestamp: " + r["ts"] + b"\n") not in unfield(o):
                 oracle.append(("hypothesis_timestamp", "timestamp %r is not printed as given" % r["ts"], {"report": _jsonable(r), "lines": [w_line(r)]}))
 
-        # ---- 3. every truncation point of small reports
+        # ---- 2b. groups with very many files (around the 1024 preallocation bound of read_paths, and ~3000), both formats
+        bigs = []
+        for nf in [1023, 1024, 1025, 2500 + rng.below(1000)] + ([4096, 4097, 10000] if not ctx.quick else []):
+            rb = gen_report(rng, small=True)
+            big = (bytes(rng.below(256) for _ in range(16)), gen_size(rng),
+                   [b"/d/" + (b"%d" % i) + (rng.choice([b"", b"", b"", b" ", b"\n", b"\xff", "ż".encode()])) for i in range(nf)])
+            before = [(b"\x01", 1, [b"/b"])] if rng.chance(1, 2) else []
+            rb["groups"] = before + [big, (b"\x02\x03", 7, [b"/after/x", b"/after/y "])]
+            rb["stats"][0] = len(rb["groups"])
+            rb["stats"][1] = sum(len(g[2]) for g in rb["groups"])
+            bigs.append(rb)
+        btabs = human_tables(bigs)
+        bw, _ = compare([w_line(r) for r in bigs], None, [w_line(r, tab) for r, tab in zip(bigs, btabs)])
+        bback, _ = compare(["r " + o for o in bw])
+        bj = core.run_lines_parallel(TXT, [w_line(r, cmd="wj") for r in bigs])
+        bjback = core.run_lines_parallel(TXT, ["r " + o for o in bj])
+        for r, o, b, jo, jb in zip(bigs, bw, bback, bj, bjback):
+            nf = max(len(g[2]) for g in r["groups"])
+            ctx.count(2)
+            ctx.bump("files_in_largest_group", nf)
+            ctx.distinct(("big", nf, o[:200]), True)
+            if o.startswith("EXN") or b != canonical(r):
+                exp = canonical(r)
+                d = next((i for i, (x, y) in enumerate(zip(b.split(), exp.split())) if x != y), min(len(b.split()), len(exp.split())))
+                oracle.append(("report_roundtrip", "report with a group of %d files does not read back as written: result differs from token %d on: got ...%s, "
+                               "expected ...%s" % (nf, d, " ".join(b.split()[d:d + 6])[:200], " ".join(exp.split()[d:d + 6])[:200]),
+                               {"report": _jsonable(r), "files_in_largest_group": nf, "lines": [w_line(r)]}))
+            if jo.startswith("EXN") or jb != canonical(r, kind="jsonread"):
+                oracle.append(("json_roundtrip", "JSON report with a group of %d files does not read back as written" % nf,
+                               {"report": _jsonable(r), "files_in_largest_group": nf, "lines": [w_line(r, cmd="wj")]}))
+
+        # ---- 3. every truncation point of small reports; selected truncation points of the 1025-file report
         smalls = [gen_report(rng, small=True) for _ in range(ctx.pick(40, 200))]
         smalls = [r for r in smalls if r["groups"]] + [gen_report(rng, small=True)]
         stexts = [unfield(o) for o in core.run_lines_parallel(TXT, [w_line(r) for r in smalls])]
@@ -314,6 +351,25 @@ def run(ctx):
         for ri, (r, text) in enumerate(zip(smalls, stexts)):
             for k in range(len(text) + 1):
                 cuts.append((ri, k))
+                clines.append("r " + field(text[:k]))
+        n_small = len(smalls)
+        for rb, o in list(zip(bigs, bw))[2:3 if ctx.quick else 4]:
+            if o.startswith("EXN"):
+                continue
+            text = unfield(o)
+            hdr_end, gl = layout(rb, text)
+            start, last, end = max(gl, key=lambda g: g[2] - g[0])
+            offs = [i + 1 for i, c in enumerate(text) if c == 10 and start <= i < end]      # line starts inside the big group
+            ks = set()
+            for li in (1, 2, 1022, 1023, 1024, 1025, 1026, len(offs) - 2, len(offs) - 1):
+                if 0 <= li < len(offs):
+                    ks |= {offs[li] - 1, offs[li], offs[li] + 1, offs[li] + 5}
+            ks |= {start + 1, end - 1, end, len(text) - 1, len(text)}
+            ks |= {start + 1 + rng.below(end - start - 1) for _ in range(ctx.pick(12, 60))}
+            smalls.append(rb)
+            stexts.append(text)
+            for k in sorted(x for x in ks if 0 <= x <= len(text)):
+                cuts.append((len(smalls) - 1, k))
                 clines.append("r " + field(text[:k]))
         cimpl, _ = compare(clines)
         k4 = 0
@@ -381,6 +437,55 @@ def run(ctx):
                 ctx.count()
                 if m != x:
                     mismatches.append((l + "   (string inside the JSON report)", x, m))
+
+        # ---- 4b. the byte stream delivered in pieces: the round trip must not depend on how the bytes arrive
+        #      (short reads on a pipe, BufReader boundaries).  Model-free: the result must equal the report.
+        klines, kexp, kinfo = [], [], []
+
+        def add_chunked(r, text, mode, kind="text"):
+            klines.append("rk %s %s" % (mode, field(text)))
+            kexp.append(canonical(r, kind=kind))
+            kinfo.append((r, mode, kind))
+        for r, text in list(zip(smalls, stexts))[:n_small]:
+            for off in range(1, len(text)):
+                add_chunked(r, text, "s%d" % off)
+            for n in (1, 2, 7):
+                add_chunked(r, text, "k%d" % n)
+        for r, o in list(zip(reports, wimpl))[:ctx.pick(120, 1500)]:
+            if not o.startswith("EXN"):
+                for n in (1, 3, 5, 13, 64):
+                    add_chunked(r, unfield(o), "k%d" % n)
+        for r, o in list(zip(jr, jimpl))[:ctx.pick(25, 300)]:
+            if not o.startswith("EXN"):
+                for n in (1, 7):
+                    add_chunked(r, unfield(o), "k%d" % n, kind="jsonread")
+        # a long command line that puts the start of the `# Total:` line d bytes before the 16 KiB buffer of open_report
+        for rep in range(ctx.pick(2, 10)):
+            r0 = gen_report(rng, small=True)
+            r0["cmd"] = [b"fclones", b"group", b"x"]
+            t0 = unfield(core.run_lines(TXT, [w_line(r0)])[0])
+            o0 = t0.index(b"# Total:")
+            for d in range(0, 10):
+                r1 = dict(r0)
+                r1["cmd"] = [b"fclones", b"group", b"x" * (1 + 16384 - d - o0)]
+                t1 = unfield(core.run_lines(TXT, [w_line(r1)])[0])
+                if t1.index(b"# Total:") != 16384 - d:
+                    raise RuntimeError("padding did not place the statistics line at the buffer boundary")
+                add_chunked(r1, t1, "k1000000")          # plain reads: only the BufReader boundary matters
+                add_chunked(r1, t1, "s%d" % (16384 - d + 3))
+        kgot = core.run_lines_parallel(TXT, klines)
+        for l, g, e, (r, mode, kind) in zip(klines, kgot, kexp, kinfo):
+            ctx.count()
+            ctx.bump("chunking", "split_at_offset" if mode.startswith("s") else "reads_of_%s_bytes" % ("1" if mode == "k1" else "2-64" if int(mode[1:]) <= 64 else "unbounded"))
+            if g != e:
+                d = next((i for i, (x, y) in enumerate(zip(g.split(), e.split())) if x != y), 0)
+                oracle.append(("chunked_read_roundtrip", "the report read through a stream delivered as `%s` (k<n>: reads of at most n bytes, s<off>: one short "
+                               "read ending at byte <off>) differs from the report written: got ...%s, expected ...%s"
+                               % (mode, " ".join(g.split()[d:d + 4])[:160], " ".join(e.split()[d:d + 4])[:160]),
+                               {"report": _jsonable(r), "chunking": mode, "chunk_lines": [l], "expected": e, "lines": [],
+                                "text_around_split": (unfield(l.split()[2])[max(0, int(mode[1:]) - 30):int(mode[1:]) + 10].decode("utf-8", "replace")
+                                                      if mode.startswith("s") else None),
+                                "replay_cmd": "echo '%s ...' | %s" % (l[:40], TXT)}))
 
         # ---- 5. random edits (model == implementation on malformed input)
         mlines = []
